@@ -188,6 +188,35 @@ func (c *checkCtx) check() int {
 		fmt.Fprintf(os.Stderr, "gcsim: HARNESS: expected %d results, have %d\n", total, len(bt.Results))
 		return 2
 	}
+	if c.ID == "C02" {
+		// cross-process leg with the shipped binary as real processes
+		if err := buildFrontends(c.Build); err != nil {
+			fmt.Fprintln(os.Stderr, "gcsim: build trouble:", err)
+			return 2
+		}
+		targets := corpusTargets()
+		reps := 3
+		if c.Tier == "thorough" {
+			reps = 6
+		} else {
+			// quick: a seeded third of the corpus, the hand-written packages always
+			var sel []repeatCase
+			for i, t := range targets {
+				if strings.HasPrefix(t.Target, "./corpus/") || (uint64(i)+c.Seed)%3 == 0 {
+					sel = append(sel, t)
+				}
+			}
+			targets = sel
+		}
+		for i := range targets {
+			targets[i].Repeats = reps
+		}
+		t1 := time.Now()
+		rr := c.runRepeatCases(targets, feIndexBase)
+		fmt.Printf("gcsim: %d commands x %d real processes of the shipped go-critic binary in %.1fs\n", len(targets), reps, time.Since(t1).Seconds())
+		bt.Results = append(bt.Results, rr...)
+		total += len(rr)
+	}
 	if c.ID == "C19" {
 		// second engine: the real front-end binaries on faulted configurations and workspaces
 		if err := buildFrontends(c.Build); err != nil {
@@ -248,7 +277,14 @@ func (c *checkCtx) check() int {
 			exit = 1
 			continue // reported in the evidence; the first six get replay files
 		}
-		if rp.Run.Config != nil && rp.Run.Config.Kind == "frontend-process" {
+		if rp.Run.Config != nil && rp.Run.Config.Kind == "frontend-repeat" {
+			var rc repeatCase
+			json.Unmarshal(rp.Run.Config.Extra, &rc)
+			rc.Repeats = 12
+			for _, r := range c.runRepeatCases([]repeatCase{rc}, rp.Run.Index) {
+				rp.Confirmed = sameViolation(r, rp.Vio)
+			}
+		} else if rp.Run.Config != nil && rp.Run.Config.Kind == "frontend-process" {
 			// one real process pair is already minimal; confirm by running it again
 			var fc feCase
 			json.Unmarshal(rp.Run.Config.Extra, &fc)
@@ -433,6 +469,25 @@ func (c *checkCtx) replay(path string) int {
 	}
 	if err := json.Unmarshal(b, &rf); err != nil || rf.Config == nil {
 		die2("bad replay file %s: %v", path, err)
+	}
+	if rf.Config.Kind == "frontend-repeat" {
+		if err := buildFrontends(c.Build); err != nil {
+			fmt.Fprintln(os.Stderr, "gcsim: build trouble:", err)
+			return 2
+		}
+		var rc repeatCase
+		json.Unmarshal(rf.Config.Extra, &rc)
+		rc.Repeats = 24
+		for _, r := range c.runRepeatCases([]repeatCase{rc}, 0) {
+			for _, v := range r.Violations {
+				if v.Class == rf.Violation.Class {
+					fmt.Printf("VIOLATION property=%s replay=%s\n  reproduced: class=%s identity=%s\n  %s\n", c.ID, path, v.Class, v.Identity, short(v.Detail, 1500))
+					return 1
+				}
+			}
+		}
+		fmt.Printf("gcsim: replay of %s (24 processes) did not reproduce class %s on this tree\n", path, rf.Violation.Class)
+		return 0
 	}
 	if rf.Config.Kind == "frontend-process" {
 		if err := buildFrontends(c.Build); err != nil {
